@@ -5,6 +5,7 @@ import (
 	"fmt"
 	"io/fs"
 	"strings"
+	"sync"
 
 	"github.com/titpetric/lessgo/dst"
 	"github.com/titpetric/lessgo/renderer"
@@ -113,6 +114,12 @@ func (lp *LessProcessor) compileLessTag(styleNode *html.Node) error {
 		return nil // Empty style tag, nothing to compile
 	}
 
+	// The LESS library keeps package-level state (base directory, function tables) that it
+	// writes while compiling: compilations are made one at a time, so that concurrent renders
+	// of pages with LESS blocks do not race inside it.
+	lessMu.Lock()
+	defer lessMu.Unlock()
+
 	// Parse and compile LESS to CSS
 	parser := dst.NewParser(bytes.NewReader([]byte(lessContent)))
 	if lp.fs != nil {
@@ -136,6 +143,9 @@ func (lp *LessProcessor) compileLessTag(styleNode *html.Node) error {
 
 	return nil
 }
+
+// lessMu serialises the use of the LESS library, see compileLessTag.
+var lessMu sync.Mutex
 
 // maxLessImports bounds the files one style block may import, directly and indirectly.
 const maxLessImports = 256
